@@ -106,6 +106,11 @@ impl Iterator for FlopExhaustiveEvaluatorIterator {
     type Item = Showdown;
 
     fn next(&mut self) -> Option<Showdown> {
+        // a player with an empty range makes the enumeration empty
+        if self.player_entries.iter().any(|entries| entries.is_empty()) {
+            return None;
+        }
+
         // blocked deals are skipped by looping, not by recursing: a long run of blocked
         // deals must not grow the stack
         loop {
